@@ -43,6 +43,8 @@ def cases(tier, seed):
                     if len(es) <= 2 and not special and flip[0] == 0 and len(set(rad)) == len(es):
                         yield dict(env='ideal' if ground else 'free', f=f, lam=lam, pts=pts, st=st, refreq=4.0)
                         yield dict(env='ideal' if ground else 'free', f=f, lam=lam, pts=pts, st=st, refreq=0.25)
+                        # ... and a second fill of the same object at the same frequency
+                        yield dict(env='ideal' if ground else 'free', f=f, lam=lam, pts=pts, st=st, refreq=1.0)
     if tier == 'thorough':
         for ground in (False, True):
             P, f, lam = geom.lattice(seed, ground=ground, n=7)
@@ -107,7 +109,8 @@ def evaluate(c):
     for name, sfx in passes:
       if sfx:
         # the SAME object at another frequency: every radius changes its thin/thick class (1e-4 wavelength)
-        m.f = c['f'] * c['refreq']
+        if c['refreq'] != 1.0:
+            m.f = c['f'] * c['refreq']
         m.compute_impedance_matrix()
       k = 2 * np.pi / m.wavelen
       srm = 1e-4 * m.wavelen
